@@ -7,7 +7,7 @@ import os
 import re
 import numpy as np
 from fractions import Fraction
-from vf import core
+from vf import core, traced
 
 S = 0.25
 # the roots of the event functions come with each behaviour (log[0]["roots"], the model's ROOTS constant): one source of truth
@@ -198,10 +198,11 @@ def replay(log, method):
             raised = None
             st["in_call"] = True
             try:
-                sys_.integrate(**kw)
+                with traced.wall_clock(120.0):
+                    sys_.integrate(**kw)
             except de.exception_types.FailedIntegration as x:
                 raised = x
-            except Budget:
+            except (Budget, traced.BudgetExceeded):
                 for mm in st["mism"]:
                     mm["call"] = ncall
                     mism.append(mm)
